@@ -32,6 +32,7 @@ partial def toXExpr : SExp → Option XExpr
   | .list [.atom "c", .atom f, .list args] => do
     let as ← toXArgs args
     pure (.call f as)
+  | .list [.atom "fld", .atom c, .atom f] => some (.fld c f)
   | _ => none
 
 partial def toXArgs : List SExp → Option XArgs
@@ -56,6 +57,9 @@ partial def toXStmt : SExp → Option XStmt
   | .list [.atom "expr", e] => do
     let e' ← toXExpr e
     pure (.expr e')
+  | .list [.atom "fbcall", .atom c, .list args] => do
+    let as ← toXArgs args
+    pure (.fbcall c as)
   | .list [.atom "if", c, t, .list elifs, el] => do
     let c' ← toXExpr c
     let t' ← toXBlock t
@@ -156,6 +160,19 @@ def parseFunc? (tokens : List String) : Option FuncDef :=
       let b ← toXBlock body
       pure { name := name, ret := rt, params := ps', locals := ls', body := b }
     | _, _ => none
+  | _ => none
+
+/-- `fb <name> (params) (vars) body` (tokens after the word `fb`). -/
+def parseFb? (tokens : List String) : Option FbDef :=
+  match tokens with
+  | name :: rest =>
+    match parseSExps rest with
+    | some [.list ps, .list ls, body] => do
+      let ps' ← ps.mapM toParam
+      let ls' ← ls.mapM toLocal
+      let b ← toXBlock body
+      pure { name := name, params := ps', vars := ls', body := b }
+    | _ => none
   | _ => none
 
 def parseXBlock? (tokens : List String) : Option XBlock :=
